@@ -17,11 +17,17 @@ class Setup:
     pass
 
 
-def setup(prog, ov=None, text=None, validate=True, variant="A"):
-    """Parse with the harness gate set and build the reference Program.
+def setup(prog, ov=None, text=None, validate=True, variant="A", assemble=False):
+    """Parse with the harness gate set (or, with assemble=True, put the circuit together from core objects, see
+    apiroute.assemble_from_objects) and build the reference Program.
     Returns (status, Setup|None); status 'ok' | 'skipped:...' | 'inconclusive:...'."""
     text = text if text is not None else sx.to_text(prog)
-    o = lib.outcome(lib.parse, text, native(variant))
+    if assemble:
+        from .. import apiroute
+
+        o = lib.outcome(apiroute.assemble_from_objects, prog, native(variant))
+    else:
+        o = lib.outcome(lib.parse, text, native(variant))
     s = Setup()
     s.text = text
     s.parse_outcome = o
